@@ -61,6 +61,9 @@ def case_strategy(draw, workloads=WORKLOADS):
     K = draw(st.integers(1, 2 if wl == "measure" else 3))
     centers = [[1.0 + 0.05 * p, 0.0] for p in range(K)]
     case = {"workload": wl, "K": K, "centers": centers, "new": draw(small_catalog(K, 1.0)), "old": draw(small_catalog(K, 1.0)), "other": draw(small_catalog(K, 1.0))}
+    # prior catalog of an overwrite may have fewer patches than the new one; creation may span several chunks
+    case["K_old"] = draw(st.integers(1, K))
+    case["chunksize"] = draw(st.sampled_from([None, None, 2, 3]))
     case["edges_a"] = [0.1, 0.4, 0.7, 1.0]
     case["edges_b"] = {"retrees_edges": [0.1, 0.5, 0.8, 1.0], "retrees_count": [0.1, 0.4, 1.0], "overwrite_trees": [0.1, 0.4, 0.7, 1.0]}.get(wl, [0.1, 0.55, 1.0])
     case["closed_a"] = draw(gen.closed_strategy)
@@ -138,9 +141,11 @@ def evaluate_catalog_state(path, case, allowed, cfgs, scratch):
         return verdict
     verdict["records"] = which[0]
     src = case[which[0]]
-    fresh = pl.make_catalog(scratch / "fresh_same", src, case["centers"])
-    other = pl.make_catalog(scratch / "fresh_other", case["other"], case["centers"])
-    other2 = pl.make_catalog(scratch / "fresh_other2", case["other"], case["centers"])
+    # the prior catalog of an overwrite was created on the first K_old centres only
+    centers = case["centers"][: case.get("K_old", case["K"])] if which[0] == "old" else case["centers"]
+    fresh = pl.make_catalog(scratch / "fresh_same", src, centers)
+    other = pl.make_catalog(scratch / "fresh_other", case["other"], centers)
+    other2 = pl.make_catalog(scratch / "fresh_other2", case["other"], centers)
     got = measurements(cat, other, cfgs)
     exp = measurements(fresh, other2, cfgs)
     bad = {}
@@ -177,7 +182,10 @@ def run_case(case):
         try:
             tcat = template / "cat"
             if wl in ("overwrite", "overwrite_trees"):
-                c0 = pl.make_catalog(tcat, case["old"], case["centers"])
+                # the old catalog lives on the first K_old centres only
+                ko = case.get("K_old", case["K"])
+                cen_o = np.array(case["centers"][:ko], float)
+                c0 = pl.make_catalog(tcat, case["old"], cen_o)
                 allowed["old"] = expected_multiset(case["old"])
                 if wl == "overwrite_trees":
                     c0.build_trees(case["edges_a"], closed=closed_a, max_workers=1)
@@ -205,9 +213,9 @@ def run_case(case):
         # ---------------- the workload (runs in a forked child)
         def workload():
             if wl == "create":
-                pl.make_catalog(cat_path, case["new"], case["centers"])
+                pl.make_catalog(cat_path, case["new"], case["centers"], chunksize=case.get("chunksize"))
             elif wl in ("overwrite", "overwrite_trees"):
-                pl.make_catalog(cat_path, case["new"], case["centers"], overwrite=True)
+                pl.make_catalog(cat_path, case["new"], case["centers"], overwrite=True, chunksize=case.get("chunksize"))
             elif wl == "meta":
                 Catalog(cat_path, max_workers=1)
             elif wl == "trees":
